@@ -120,9 +120,20 @@ macro_rules! port_int {
             #[kani::proof]
             #[kani::unwind(4)]
             fn muldiv() {
+                muldiv_body(256, 128)
+            }
+
+            /// thorough tier: operands |x| < 4096, |y| < 256
+            #[kani::proof]
+            #[kani::unwind(4)]
+            fn muldiv_wide() {
+                muldiv_body(4096, 256)
+            }
+
+            fn muldiv_body(bx: i128, by: i128) {
                 let x: $native = kani::any();
                 let y: $native = kani::any();
-                kani::assume((x as i128) < 256 && (x as i128) > -256 && (y as i128) < 128 && (y as i128) > -128);
+                kani::assume((x as i128) < bx && (x as i128) > -bx && (y as i128) < by && (y as i128) > -by);
                 let p = <$P as From<$native>>::from(x);
                 let q = <$P as From<$native>>::from(y);
                 if let Some(r) = x.checked_mul(y) {
